@@ -327,6 +327,9 @@ def shapes(tier: str, pid: str):
             A((kind, {"n": 3, key: 1, "lab": [1], "links": 0, "edit": how}))
             if not q:
                 A((kind, {"n": 2, key: 2, "lab": [0, 1], "links": 1, "edit": how}))
+    for kind, key in (("data3d", "tracks"), ("emg", "signals"), ("force3d", "tracks"), ("fpdata", "plats")):
+        # the same float32 values handed over as a big-endian array
+        A((kind, {"n": 2, key: 1, "lab": [1], "links": 0, "given": ">f4"}))
     if pid == "C02":
         # sizes must agree also when a deciding component is +-inf (stored as a gap)
         for kind, key in (("data3d", "tracks"), ("emg", "signals"), ("force3d", "tracks"), ("fpdata", "plats")):
